@@ -174,7 +174,15 @@ func Generate(seed uint64, prop, tier string) *Plan {
 	}
 	c.ReusePort = r.Chance(1, 3)
 	if c.Network != "unix" && (prop == "C06" || prop == "C07") && r.Chance(1, 4) || r.Chance(1, 10) {
-		c.Listeners = r.Pick(2, 3) // Rotate: two tcp listeners, or tcp plus unix
+		c.Listeners = r.Pick(2, 3, 4) // Rotate: two tcp listeners, tcp plus unix, or tcp plus an (idle) udp listener
+		if c.Listeners == 4 {
+			// a UDP address among the listeners forces SO_REUSEPORT mode and switches
+			// edge-triggered I/O off (the chunk option stays as given)
+			c.ReusePort = true
+		}
+	}
+	if c.Listeners == 4 && (prop == "C15" || c.Network != "tcp") {
+		c.Listeners = 2
 	}
 	c.LB = r.Intn(3)
 	if prop == "C15" {
